@@ -1,6 +1,7 @@
 package statebackend
 
 import (
+	"errors"
 	"fmt"
 
 	"github.com/NethermindEth/juno/core"
@@ -29,7 +30,28 @@ func storeCasmHashMetadata(
 		return storeCasmHashMetadataV2(reader, writer, blockNumber, stateUpdate)
 	}
 
-	return storeCasmHashMetadataV1(writer, blockNumber, stateUpdate, newClasses)
+	return storeCasmHashMetadataV1(reader, writer, blockNumber, stateUpdate, newClasses)
+}
+
+// verifyNotDeclared fails when CASM hash metadata already exists for the class. A Sierra class is
+// declared exactly once: a state diff that declares it again is not applicable, and writing its
+// metadata would overwrite the record (declaration height, V1 hash) of the real declaration.
+func verifyNotDeclared(
+	reader db.KeyValueReader,
+	sierraClassHash *felt.SierraClassHash,
+	blockNumber uint64,
+) error {
+	_, err := core.GetClassCasmHashMetadata(reader, sierraClassHash)
+	if err == nil {
+		return fmt.Errorf("class %s declared at block %d is already declared",
+			sierraClassHash.String(),
+			blockNumber,
+		)
+	}
+	if errors.Is(err, db.ErrKeyNotFound) {
+		return nil
+	}
+	return err
 }
 
 // storeCasmHashMetadataV2 stores metadata for classes declared with casm hash v2 or
@@ -41,11 +63,16 @@ func storeCasmHashMetadataV2(
 	stateUpdate *core.StateUpdate,
 ) error {
 	for sierraClassHash, casmHash := range stateUpdate.StateDiff.DeclaredV1Classes {
+		err := verifyNotDeclared(reader, (*felt.SierraClassHash)(&sierraClassHash), blockNumber)
+		if err != nil {
+			return err
+		}
+
 		metadata := core.NewCasmHashMetadataDeclaredV2(
 			blockNumber,
 			(*felt.CasmClassHash)(casmHash),
 		)
-		err := core.WriteClassCasmHashMetadata(
+		err = core.WriteClassCasmHashMetadata(
 			writer,
 			(*felt.SierraClassHash)(&sierraClassHash),
 			&metadata,
@@ -82,6 +109,7 @@ func storeCasmHashMetadataV2(
 // storeCasmHashMetadataV1 stores metadata for classes declared with V1 hash (protocol < 0.14.1).
 // It computes the V2 hash from the class definition.
 func storeCasmHashMetadataV1(
+	reader db.KeyValueReader,
 	writer db.KeyValueWriter,
 	blockNumber uint64,
 	stateUpdate *core.StateUpdate,
@@ -89,6 +117,11 @@ func storeCasmHashMetadataV1(
 ) error {
 	for sierraClassHash, casmHash := range stateUpdate.StateDiff.DeclaredV1Classes {
 		casmHashV1 := (*felt.CasmClassHash)(casmHash)
+
+		err := verifyNotDeclared(reader, (*felt.SierraClassHash)(&sierraClassHash), blockNumber)
+		if err != nil {
+			return err
+		}
 
 		classDef, ok := newClasses[sierraClassHash]
 		if !ok {
@@ -110,7 +143,7 @@ func storeCasmHashMetadataV1(
 		casmHashV2 := felt.CasmClassHash(v2Hash)
 
 		metadata := core.NewCasmHashMetadataDeclaredV1(blockNumber, casmHashV1, &casmHashV2)
-		err := core.WriteClassCasmHashMetadata(
+		err = core.WriteClassCasmHashMetadata(
 			writer,
 			(*felt.SierraClassHash)(&sierraClassHash),
 			&metadata,
